@@ -8,11 +8,12 @@
    C19_other_headers_do_not_matter) - and by repeating a header type after its first occurrence
    (C19_later_repetitions_do_not_matter).  Both are statements about the walk over any header list
    whose types are recorded in the parsed-header flags (`coherent`: the parser sets the flag of every
-   header it stores; unused array slots are of the unfingerprinted type HdrNone).
+   header it stores; unused array slots are of the unfingerprinted type HdrNone) - which is proved
+   for every message ParseSIPMsg produced, however it was fed (SigCoherent.v).
    PARTIAL: that the signature is a function of method / order / long-compact form of the first
    occurrences, the dependence on chunking (C01: chunked = one-shot objects) and the character-class
    strings themselves are covered by the metamorphic oracle + a reference of the header part. *)
-From Sipsp Require Import Harness Tables SigWalk SigInv.
+From Sipsp Require Import Harness Tables SigWalk SigInv SigCoherent.
 Theorem C19_replies_yield_no_signature : forall cs ss vs m buf, msg_request m = false ->
   get_msg_sig cs ss vs m buf = Some (msgsig0, EEmpty).
 Proof. exact reply_no_sig. Qed.
@@ -44,9 +45,32 @@ Theorem C19_later_repetitions_do_not_matter : forall cs ss vs m m' buf h hs1 hs2
   hl_hdrs (hs_l (m_hs m)) = hs1 ++ hs2 -> hl_hdrs (hs_l (m_hs m')) = hs1 ++ h :: hs2 ->
   gsig_sig (get_msg_sig cs ss vs m' buf) = gsig_sig (get_msg_sig cs ss vs m buf).
 Proof. exact sig_ignores_later_repetitions. Qed.
+(* the coherence premise holds for every message the parser produced: fed in any number of calls on
+   growing prefixes (feeds), from a fresh object of any header / contact capacity, once the header block
+   is complete.  So for parsed messages the first invariance is unconditional. *)
+Theorem C19_parsed_messages_are_coherent : forall flags B offs bl n cv o s o' e m,
+  testbit flags bSIPMsgNoMoreData = false -> feeds flags B offs (msg_init bl (repeat hdr0 n) cv) o s ->
+  parse_sipmsg flags B o s = Done o' e m -> m_state m = MFIN \/ m_state m = MNoCLen ->
+  coherent (hl_pflags (hs_l (m_hs m))) (hl_hdrs (hs_l (m_hs m))).
+Proof. exact message_coherent_fed. Qed.
+Theorem C19_other_headers_do_not_matter_for_parsed_messages : forall cs ss vs flags B offs bl n cv o s o' e m m' sbuf h hs1 hs2,
+  testbit flags bSIPMsgNoMoreData = false -> feeds flags B offs (msg_init bl (repeat hdr0 n) cv) o s ->
+  parse_sipmsg flags B o s = Done o' e m -> m_state m = MFIN \/ m_state m = MNoCLen ->
+  same_fingerprint_sources m m' -> neutral (h_type h) ->
+  hl_hdrs (hs_l (m_hs m)) = hs1 ++ hs2 -> hl_hdrs (hs_l (m_hs m')) = hs1 ++ h :: hs2 ->
+  gsig_sig (get_msg_sig cs ss vs m' sbuf) = gsig_sig (get_msg_sig cs ss vs m sbuf).
+Proof. exact parsed_sig_ignores_other_headers. Qed.
+(* the premises are satisfiable: the message of C05_example, fed in one call, ends in MFIN *)
+Example C19_parsed_example :
+  match parse_sipmsg 0 [73;78;86;73;84;69;32;115;105;112;58;97;32;83;73;80;47;50;46;48;13;10;86;105;97;58;32;120;13;10;70;114;111;109;58;32;60;115;105;112;58;98;62;59;116;97;103;61;49;13;10;67;97;108;108;45;73;68;58;32;99;13;10;13;10] 0 (msg_init 0 (repeat hdr0 5) (repeat pfrom0 2)) with
+  | Done _ EOk m => m_state m = MFIN /\ map h_type (hl_hdrs (hs_l (m_hs m))) = [HdrVia; HdrFrom; HdrCallID; HdrNone; HdrNone]
+  | _ => False
+  end.
+Proof. vm_compute. split; reflexivity. Qed.
 (* which types are "other": exactly those without a signature id (every type, incl. out-of-table ones) *)
 Theorem C19_unfingerprinted_types_have_no_signature_id : forall h, neutral (h_type h) -> snd (hdr_sig_id h) <> EOk.
 Proof. exact neutral_id. Qed.
 Example C19_neutral_examples : neutral HdrNone /\ neutral HdrOther /\ neutral HdrExpires /\ ~ neutral HdrVia /\ ~ neutral HdrFrom.
 Proof. unfold neutral. repeat split; try (vm_compute; reflexivity); vm_compute; discriminate. Qed.
 Print Assumptions C19_other_headers_do_not_matter.
+Print Assumptions C19_other_headers_do_not_matter_for_parsed_messages.
